@@ -1,45 +1,66 @@
 #!/usr/bin/env python3
-"""Try a seeded change: apply it to /repo, run the baseline suite, the demonstration and the given
-checks, then restore /repo.   usage: tools/seedtest.py <patch.diff> <demo.py> Cxx [Cyy ...]"""
+"""Try a seeded change on a scratch copy of /repo (made under /tmp, removed afterwards): baseline
+suite, the demonstration with and without the change, and the given checks (VERIF_REPO points
+them at the copy).  usage: tools/seedtest.py <patch.diff> <demo.py> Cxx [Cyy ...] [--tier T] [--seed N]
+C18 regenerates a shared Lean file and therefore patches /repo itself instead of a copy."""
 import json
 import os
+import shutil
 import subprocess
 import sys
+import tempfile
 import time
 
 ROOT = os.path.dirname(os.path.dirname(os.path.abspath(__file__)))
-patch, demo, checks = sys.argv[1], sys.argv[2], sys.argv[3:]
+args = sys.argv[1:]
+tier, seed = "quick", "0"
+if "--tier" in args:
+    i = args.index("--tier"); tier = args[i + 1]; del args[i:i + 2]
+if "--seed" in args:
+    i = args.index("--seed"); seed = args[i + 1]; del args[i:i + 2]
+patch, demo, checks = args[0], args[1], args[2:]
 
 
 def sh(cmd, **kw):
     return subprocess.run(cmd, shell=True, capture_output=True, text=True, **kw)
 
 
-def demo_rc():
+def demo_rc(repo):
     try:
-        return sh("PYTHONPATH=/repo/src /venv/bin/python %s" % demo, timeout=120).returncode
+        return sh("PYTHONPATH=%s/src /venv/bin/python %s" % (repo, demo), timeout=120).returncode
     except subprocess.TimeoutExpired:
         return "timeout"
 
 
-res = {"patch": patch}
-assert sh("git -C /repo status --porcelain").stdout.strip() == "", "/repo is not clean"
-res["demo_clean_rc"] = demo_rc()
-a = sh("git -C /repo apply %s" % patch)
-if a.returncode != 0:
-    print("patch does not apply:", a.stderr)
-    sys.exit(2)
+in_place = "C18" in checks
+res = {"patch": patch, "tier": tier, "seed": seed}
+res["demo_clean_rc"] = demo_rc("/repo")
+if in_place:
+    assert sh("git -C /repo status --porcelain").stdout.strip() == "", "/repo is not clean"
+    repo = "/repo"
+else:
+    tmp = tempfile.mkdtemp(prefix="vh-seed-")
+    repo = os.path.join(tmp, "repo")
+    sh("git -C /repo worktree add --detach %s HEAD" % repo)
+a = sh("git -C %s apply %s" % (repo, os.path.abspath(patch)))
 try:
-    t = sh("cd /repo && /venv/bin/python -m pytest -q -p no:cacheprovider 2>&1 | tail -1")
+    if a.returncode != 0:
+        print("patch does not apply:", a.stderr)
+        sys.exit(2)
+    t = sh("cd %s && PYTHONPATH=%s/src /venv/bin/python -m pytest -q -p no:cacheprovider 2>&1 | tail -1" % (repo, repo))
     res["suite"] = t.stdout.strip()
-    res["demo_mutant_rc"] = demo_rc()
+    res["demo_mutant_rc"] = demo_rc(repo)
     res["checks"] = {}
     for c in checks:
         t0 = time.time()
-        r = sh("cd %s && ./check %s --tier quick" % (ROOT, c), timeout=3000)
+        r = sh("cd %s && VERIF_REPO=%s VERIF_SEED=%s ./check %s --tier %s" % (ROOT, repo, seed, c, tier), timeout=6000)
         lines = [l for l in r.stdout.splitlines() if l.startswith(("VIOLATION", "KNOWN", c, "  what", "INTERNAL", "  no longer"))]
-        res["checks"][c] = {"rc": r.returncode, "lines": lines[:8], "wall": round(time.time() - t0, 1)}
+        res["checks"][c] = {"rc": r.returncode, "lines": [l[:300] for l in lines[:8]], "wall": round(time.time() - t0, 1)}
 finally:
-    sh("git -C /repo checkout -- .")
-    sh("git -C /repo clean -fdq src")
+    if in_place:
+        sh("git -C /repo checkout -- .")
+        sh("git -C /repo clean -fdq src")
+    else:
+        sh("git -C /repo worktree remove --force %s" % repo)
+        shutil.rmtree(tmp, ignore_errors=True)
 print(json.dumps(res, indent=1))
